@@ -37,10 +37,12 @@ SimNext ==
         \/ ECall(e) /\ Rel(e, "")
         \/ ELock(e) /\ Rel(e, "")
         \/ ECheck(e) /\ Rel(e, "")
-        \/ EUnlockIgnored(e) /\ Rel(e, G(e, "span.end.ignored"))
+        \* the return after a lost re-check has no instrumentation point of its own: the process runs on to @ret
+        \/ EUnlockIgnored(e) /\ Rel(e, IF pc[e] = "unlockign" THEN G(e, "span.end.ignored") ELSE "")
         \/ EUnlockForTask(e) /\ Rel(e, G(e, "span.end.checked"))
         \/ ETaskEnd(e) /\ Rel(e, G(e, "span.end.taskended"))
         \/ ERelock(e) /\ Rel(e, "")
+        \/ ERecheck(e) /\ Rel(e, "")
         \/ EMark(e) /\ Rel(e, "")
         \/ EUnlock(e) /\ Rel(e, G(e, "span.end.marked"))
         \/ EGetProcs(e) /\ Rel(e, "")
